@@ -331,6 +331,108 @@ func checkC17(c *Check) {
 	if nLoops == 0 {
 		c.Fail("R7", "loops", token.NoPos, "undecided: no function that ranges over the characters of an address was found")
 	}
+	c17EscapeState(c)
+}
+
+// R8: unquoting is a two-state scanner: a backslash (inside quotes, itself not escaped) escapes exactly the next
+// character, after which the scanner is back in the plain state. The state is a flag that is raised in the backslash
+// case only when it is down, and lowered at the end of every iteration that consumed a character. A state derived
+// from the previous CHARACTER instead (`escaped := prev == '\\'`) takes the second backslash of `\\\\` for an escape
+// of what follows: `a\\` quoted and unquoted again comes back as `a\\"`.
+func c17EscapeState(c *Check) {
+	c.Rule("R8", "UnquoteMbox: the escape state is a flag raised only in the backslash case while it is down and lowered at the end of every iteration that copied a character (an escape covers exactly one character)", 1)
+	r := c.need("R8", "framework/address", "", "UnquoteMbox")
+	if r == nil {
+		return
+	}
+	info := r.Info
+	// candidate flags: bool locals assigned the constant true somewhere
+	var flags []types.Object
+	ast.Inspect(r.FI.Decl.Body, func(x ast.Node) bool {
+		as, ok := x.(*ast.AssignStmt)
+		if !ok || len(as.Lhs) != len(as.Rhs) {
+			return true
+		}
+		for i, l := range as.Lhs {
+			o := objOf(info, l)
+			tv, has := info.Types[as.Rhs[i]]
+			if o == nil || !has || tv.Value == nil || tv.Value.String() != "true" || !isBoolType(o.Type()) {
+				continue
+			}
+			flags = append(flags, o)
+		}
+		return true
+	})
+	msg := "no flag is raised in the backslash case: the escape state is not a flag of the scanner (derived from the previous character, an escaped backslash escapes the following character as well)"
+	for _, fl := range flags {
+		// raised inside `case '\\'` under `!flag`
+		raisedInBackslash := false
+		ast.Inspect(r.FI.Decl.Body, func(x ast.Node) bool {
+			cc, ok := x.(*ast.CaseClause)
+			if !ok {
+				return true
+			}
+			isBS := false
+			for _, e := range cc.List {
+				if tv, has := info.Types[e]; has && tv.Value != nil {
+					if n, isInt := constInt(tv); isInt && n == '\\' {
+						isBS = true
+					}
+				}
+			}
+			if !isBS {
+				return true
+			}
+			for _, st := range cc.Body {
+				is, ok := st.(*ast.IfStmt)
+				if !ok {
+					continue
+				}
+				if u, isNot := ast.Unparen(is.Cond).(*ast.UnaryExpr); isNot && u.Op == token.NOT && objOf(info, u.X) == fl {
+					if nodeAssigns(is.Body, func(l, rhs ast.Expr) bool {
+						if objOf(info, l) != fl || rhs == nil {
+							return false
+						}
+						tv, has := info.Types[rhs]
+						return has && tv.Value != nil && tv.Value.String() == "true"
+					}) {
+						raisedInBackslash = true
+					}
+				}
+			}
+			return true
+		})
+		if !raisedInBackslash {
+			continue
+		}
+		// lowered on every path from a raised state to the point where a character is written
+		writes := r.Calls(func(info *types.Info, call *ast.CallExpr) bool { return methodName(call) == "WriteRune" || methodName(call) == "WriteString" || methodName(call) == "WriteByte" })
+		lowers := r.Assigns(func(l, rhs ast.Expr) bool {
+			if objOf(info, l) != fl || rhs == nil {
+				return false
+			}
+			tv, has := info.Types[rhs]
+			return has && tv.Value != nil && tv.Value.String() == "false"
+		})
+		if len(writes) == 0 || len(lowers) == 0 {
+			msg = "the escape flag is never lowered (or no character is ever copied)"
+			continue
+		}
+		// every path from the loop head to a write passes the lowering, or the lowering follows the write before the next iteration
+		okAll := true
+		for _, w := range writes {
+			if okMP, _ := r.MustPass(r.Entry(), true, func(q Pt) bool { return q == w }, isPt(lowers)); !okMP {
+				// the lowering may come after the write: from the write, the next loop head is reached only through it
+				okAll = false
+			}
+		}
+		if okAll {
+			msg = ""
+		} else {
+			msg = "a character can be copied while the escape flag stays raised for the next character"
+		}
+	}
+	c.Hold("R8", "address.UnquoteMbox:escape-state", r.FI.Decl.Pos(), msg == "", msg)
 }
 
 // checkASCIIPredicate finds the character loop of body and the branch that classifies a character as non-ASCII,
